@@ -37,6 +37,21 @@ CHECKS += [
      "design_ref": "DESIGN.md 4/C12", "technique": TLA + " (Driver.tla check/if-changed protocol)",
      "note": "file classes are established from reference bytes of the same binary; 'touched' includes mtime"},
 ]
+ENGINES += [
+    {"name": "options", "path": "spec/OptionsCore.tla spec/OptionsWords.tla spec/Options.tla spec/OptionsTrace.tla vlib/options.py vlib/checks/options_engine.py",
+     "serves_properties": ["C15", "C16"],
+     "kind_free_text": "character-level TLA+ transcription of split_args / process_option_line / the seven read() methods and of the saver; TLC checks round trip and bad-line laws over an abstract registry and line alphabet; over the real registry every configuration line given to the binary is also given to the model and each --update-config dump / stderr is compared by the trace specification"},
+]
+CHECKS += [
+    {"id": "C15", "engine": "options", "level": "model_checking",
+     "text": "All 857 options x every enumerated value / min / max / mid / 8 string classes / same-kind references / directive kinds, in rotating spellings, are loaded by the binary and, line by line, by the TLA+ model of the loader; dumps after load, after reloading the saved file (plain and with-doc) and after a second save are compared by TLC. The model itself satisfies RoundTrip / SaveIdempotent for all line sequences <=2 (3 thorough), and the two as-built writer variants are shown to violate it.",
+     "design_ref": "DESIGN.md 4/C15", "technique": TLA + " (Options.tla loader/saver)",
+     "note": "registry metadata parsed from src/options.h; formatting equivalence sampled on 3 inputs x 4 configs; 'include' is not modelled"},
+    {"id": "C16", "engine": "options", "level": "model_checking",
+     "text": "Every option x every applicable bad-line kind (out of range both sides, wrong type, unknown / incompatible reference, unknown name, 14 syntax errors) interleaved with good lines: the model predicts registry and diagnosed line numbers, compared with --update-config and stderr; every nl_max-guarded option above / at / without nl_max; seeded grammar- and byte-mutated configuration text must terminate without signal.",
+     "design_ref": "DESIGN.md 4/C16", "technique": TLA + " (Options.tla bad-line laws)",
+     "note": "mutated text is judged for crash/hang only; include cycles not modelled"},
+]
 _PENDING = "check not built yet in this commit (specification module planned in DESIGN.md 3.1); will be claimed when its check is quiet on the unchanged tree"
 NOT_APPLICABLE = [{"property_id": "C%02d" % i, "reason": _PENDING} for i in range(1, 21) if "C%02d" % i not in {c["id"] for c in CHECKS}]
 NOTES = "All checks: bin/check <ID> --tier quick|thorough; VERIF_SEED is honoured; evidence in /verif/evidence/<ID>.json; known findings in /verif/known_findings.json."
